@@ -60,7 +60,10 @@ impl Ctx {
                 self.confirmed_hangs.fetch_add(1, Ordering::Relaxed);
             }
         }
-        if !r.seam_ok {
+        // Under 2>&1 on one open file description the sink must hold the writes in program
+        // order; if it does not (a second description with its own offset, say), that is a
+        // statement about seed (C17/C19 assert it), not about the seam.
+        if !r.seam_ok && !w.merged {
             eprintln!("HARNESS-ERROR: sink content differs from the shim's event log (seam incomplete)");
             eprintln!("  world={} plan={}", w.to_json(), plan.encode_items());
             std::process::exit(2);
